@@ -415,6 +415,18 @@ class EventLoop(object):
         self.after = after
         self.peel = peel        # additionally execute the FIRST iteration from the actual entry state
 
+    def _run_check(self, c, paths, fr, ordinal):
+        """The per-iteration obligations of the sidecar contract.  If the contract can no longer make sense of the
+        loop body (a variable it inspects is gone, an event has another shape) that is "contract out of date":
+        undecided, never a crash and never a violation."""
+        try:
+            return self.check(c, paths) or []
+        except Unsupported:
+            raise
+        except (KeyError, AttributeError, IndexError, TypeError, ValueError) as e:
+            raise Unsupported("contract set-up out of date: the contract of loop %d of %s cannot interpret the loop body (%s: %s)"
+                              % (ordinal, fr.qualname, type(e).__name__, e))
+
     def _check_carried(self, interp, node, pre, runs, fr, ordinal):
         # (a) local names: assigned in the body and possibly read before being assigned in the next iteration
         targets = _target_names(node.target) if isinstance(node, ast.For) else set()
@@ -455,7 +467,7 @@ class EventLoop(object):
             interp.assign(node.target, first.box(self.item(fc, it)), first, fr)
             first_entry = first.fork()
             paths0 = [(s, s.events[pre_events:], s.status) for s in interp.exec_block(node.body, first, fr)]
-            for s, nm, f in (self.check(Ctx(interp, first_entry, fr), paths0) or []):
+            for s, nm, f in self._run_check(Ctx(interp, first_entry, fr), paths0, fr, ordinal):
                 s.oblige('%s/loop%d.%s.first' % (short, ordinal, nm), f, kind='loop')
         # the state left by earlier iterations: one or several alternative descriptions ("cases")
         havocs = self.havoc if isinstance(self.havoc, (list, tuple)) else [self.havoc]
@@ -483,7 +495,7 @@ class EventLoop(object):
             outs = interp.exec_block(node.body, body_st, fr)
             paths = [(s, s.events[pre_events:], s.status) for s in outs]
             runs.append((havoced, outs))
-            obs = self.check(Ctx(interp, entry, fr), paths) or []
+            obs = self._run_check(Ctx(interp, entry, fr), paths, fr, ordinal)
             for s, nm, f in obs:
                 s.oblige('%s/loop%d.%s%s' % (short, ordinal, nm, tag), f, kind='loop')
             for s, ev, status in paths:
